@@ -394,9 +394,48 @@ func (g *Gen) genTx(w *World) []TxSpec {
 	case "nest":
 		return g.nestTx(w)
 	case "multi":
+		if g.Flags["overflow"] && g.pct(20) {
+			if ts, ok := g.doublePurchaseTx(w); ok {
+				return []TxSpec{ts}
+			}
+		}
 		return []TxSpec{g.multiTx(w)}
 	}
 	return nil
+}
+
+// doublePurchaseTx: two storage purchases for the same registration in one transaction whose
+// numbers wrap around 2^64 when summed (the per-transaction total is what the ante stage checks,
+// the single numbers are what the handlers check).
+func (g *Gen) doublePurchaseTx(w *World) (TxSpec, bool) {
+	kind := pick(g.R, []string{"wrk", "bcn"})
+	rm := w.M.Wrk
+	if kind == "bcn" {
+		rm = w.M.Bcn
+	}
+	ids := rm.ids()
+	if len(ids) == 0 {
+		return TxSpec{}, false
+	}
+	id := pick(g.R, ids)
+	reg := rm.Regs[id]
+	if !reg.Limit.IsUint64() {
+		return TxSpec{}, false
+	}
+	owner := g.actorByAddr(w, reg.Owner)
+	lim := reg.Limit.Uint64()
+	big1 := ^uint64(0) - lim + uint64(1+g.R.Intn(2)) // limit + big1 wraps to a tiny value
+	small := uint64(1 + g.R.Intn(3))
+	a := MsgSpec{T: kind + ".purchase", A: owner, Id: id, N: big1}
+	b := MsgSpec{T: kind + ".purchase", A: owner, Id: id, N: small}
+	msgs := []MsgSpec{a, b}
+	if g.pct(50) {
+		msgs = []MsgSpec{b, a}
+	}
+	w.Fault("purchase.overflow_pair")
+	ts := TxSpec{Signer: owner, Gas: ampleGas * 2, Msgs: msgs}
+	g.setFee(w, &ts)
+	return ts, true
 }
 
 func (g *Gen) customMsg(w *World) MsgSpec {
@@ -1025,6 +1064,28 @@ func (g *Gen) multiTx(w *World) TxSpec {
 	n := 2 + g.R.Intn(3)
 	var msgs []MsgSpec
 	signer := -1
+	if g.pct(20) {
+		// register-and-use: a registration followed, in the same transaction, by operations on the
+		// identifier it is about to receive (a common client pattern; with a later failing message
+		// the whole transaction is rolled back and the identifier goes to the next registrant)
+		kind := pick(g.R, []string{"wrk", "bcn"})
+		rm := w.M.Wrk
+		if kind == "bcn" {
+			rm = w.M.Bcn
+		}
+		signer = g.actor()
+		reg := MsgSpec{T: kind + ".register", A: signer, S: []string{randStr(g.R, 6), randStr(g.R, 6), randStr(g.R, 6), "geth"}}
+		rec := MsgSpec{T: kind + ".record", A: signer, Id: rm.NextID, N: 1, S: []string{randStr(g.R, 8), "p", "1", "2", "3"}}
+		if kind == "bcn" {
+			rec.N = uint64(w.Now.Unix())
+		}
+		msgs = []MsgSpec{reg, rec}
+		if g.pct(40) {
+			msgs = append(msgs, MsgSpec{T: kind + ".purchase", A: signer, Id: rm.NextID, N: 1})
+		}
+		n = len(msgs)
+		w.Fault("msg.register_and_use")
+	}
 	for tries := 0; len(msgs) < n && tries < 40; tries++ {
 		m := g.customMsg(w)
 		if m.T == "str.claim" && g.pct(50) {
